@@ -90,8 +90,10 @@ type stub struct {
 	// DeadlineMs: leave a write deadline this far in the future behind at the start and after every echo write
 	// (the echo writes themselves run without a deadline)
 	DeadlineMs int `toml:"write_deadline_ms"`
-	run        int
-	ch         pushers.Channel
+	// ReplyDelayMs: wait this long before every echo write (a service that answers late)
+	ReplyDelayMs int `toml:"reply_delay_ms"`
+	run          int
+	ch           pushers.Channel
 }
 
 type prefixStub struct{ *stub }
@@ -151,6 +153,9 @@ func (s *stub) Handle(ctx context.Context, conn net.Conn) error {
 		Stubs.cond.Broadcast()
 		Stubs.mu.Unlock()
 		if n > 0 && s.Echo {
+			if s.ReplyDelayMs > 0 {
+				time.Sleep(time.Duration(s.ReplyDelayMs) * time.Millisecond)
+			}
 			if s.DeadlineMs > 0 {
 				conn.SetWriteDeadline(time.Time{})
 			}
